@@ -258,6 +258,14 @@ def tryCatch' (x : PM σ α) (h : Err → PM σ α) : PM σ α := fun s =>
   match x s with
   | (.ok a, s') => (.ok a, s')
   | (.error e, s') => h e s'
+/-- `try: x  finally: fin`: `fin` runs in the state `x` left, whether `x` raised or not; an exception of `fin` replaces the
+    outcome of `x` -/
+def tryFinally' (x : PM σ α) (fin : PM σ Unit) : PM σ α := fun s =>
+  match x s with
+  | (r, s') =>
+    match fin s' with
+    | (.ok _, s'') => (r, s'')
+    | (.error e, s'') => (.error e, s'')
 instance : Monad (PM σ) where
   pure := pure'
   bind := bind'
